@@ -118,6 +118,8 @@ def print_nodes(nodes, dynamic=False):
             out.append('{%% provide "%s"%s %%}%s{%% endprovide %%}' % (n[1], _kw(n[2]), print_nodes(n[3], dynamic)))
         elif k == "El":
             out.append('<%s data-n="%s">%s</%s>' % (n[1], n[2], print_nodes(n[3], dynamic), n[1]))
+        elif k == "Raw":
+            out.append(n[1])
         elif k == "Tick":
             out.append("{% tick %}")
         elif k == "Boom":
@@ -137,7 +139,7 @@ def size(nodes):
     return s
 
 
-_KINDS = {"T", "V", "D", "If", "For", "With", "Slot", "Comp", "Fill", "Prov", "El", "Boom", "Tick"}
+_KINDS = {"T", "V", "D", "If", "For", "With", "Slot", "Comp", "Fill", "Prov", "El", "Boom", "Tick", "Raw"}
 
 
 def comps_used(nodes, acc=None):
@@ -296,6 +298,8 @@ class Interp:
         self.mark = mark
         self.instances = []
         self.depth = 0
+        self.comp_stack = []  # names of the component instances whose output is being produced
+        self.nested_pairs = set()  # (enclosing component name, nested component name)
 
     # -- entry
     def render_page(self):
@@ -431,10 +435,14 @@ class Interp:
         self.depth += 1
         if self.depth > 60:
             raise RecursionError("model recursion")
+        for anc in self.comp_stack:
+            self.nested_pairs.add((anc, cname))
+        self.comp_stack.append(cname)
         try:
             out = self.render(spec.template, cenv, child, prov)
         finally:
             self.depth -= 1
+            self.comp_stack.pop()
         if spec.probes:
             out += "[" + "".join(("True" if p in fills else "False") + "," for p in spec.probes) + "]"
         if self.mark:
